@@ -23,6 +23,10 @@ class PyRaise(Exception):
         self.exc = exc
 
 
+class PyContinue(Exception):
+    pass
+
+
 class PyBreak(Exception):
     pass
 
@@ -101,8 +105,30 @@ class Exec:
         self.oracles = []
         self.loop_ordinals = {}
         loops_ = [n for n in ast.walk(self.fdef) if isinstance(n, (ast.For, ast.While))]
-        for k, n in enumerate(sorted(loops_, key=lambda n: (n.lineno, n.col_offset))):
+        ordered = sorted(loops_, key=lambda n: (n.lineno, n.col_offset))
+        for k, n in enumerate(ordered):
             self.loop_ordinals[id(n)] = k     # source order
+        # loop contracts: a spec that names the iterated expression (`over`) goes to the loop iterating over exactly
+        # that text (the k-th such loop if there are several); one that does not is keyed by source order.  A spec whose
+        # expression no longer occurs falls back to its ordinal unless another spec claims that loop.
+        self.loop_specs = {}
+        specs = dict(getattr(self.con, "loops", {})) if self.con is not None and self.con.qual == qual else {}
+        texts = {id(n): " ".join(ast.unparse(n.iter).split()) if isinstance(n, ast.For) else None for n in ordered}
+        left = {}
+        for k, sp in sorted(specs.items()):
+            if not getattr(sp, "over", None):
+                continue
+            cands = [n for n in ordered if texts[id(n)] == sp.over and id(n) not in self.loop_specs]
+            if cands:
+                same = [n for n in cands if self.loop_ordinals[id(n)] == k]
+                self.loop_specs[id((same or cands)[0])] = sp
+            else:
+                left[k] = sp
+        for k, sp in sorted(specs.items()):
+            if getattr(sp, "over", None) and k not in left:
+                continue
+            if k < len(ordered) and id(ordered[k]) not in self.loop_specs:
+                self.loop_specs[id(ordered[k])] = sp
 
     # ------------------------------------------------------------------ paths
     def explore(self, max_paths=2000):
@@ -309,6 +335,8 @@ class Exec:
             return
         if isinstance(s, ast.Break):
             raise PyBreak()
+        if isinstance(s, ast.Continue):
+            raise PyContinue()
         if isinstance(s, ast.Assign):
             v = self.eval(s.value, env)
             for t in s.targets:
@@ -570,6 +598,8 @@ class Exec:
     def truthy(self, v):
         if isinstance(v, VConst):
             return BoolVal(bool(v.py))
+        if isinstance(v, VUnknownColl):
+            return fresh("opaque.truthy", BOOL)
         if isinstance(v, VZ):
             if v.kind == "bool":
                 return v.t
@@ -726,7 +756,7 @@ class Exec:
         return self._attr_of(obj, a, e)
 
     def _attr_of(self, obj, a, e):
-        if isinstance(obj, (VModule, VConn, VCursor, VSet, VList, VDict, VListeners, VMsg, VRow, VBag, VMap)):
+        if isinstance(obj, (VModule, VConn, VCursor, VSet, VList, VDict, VListeners, VMsg, VRow, VBag, VMap, VUnknownColl)):
             return VBound(obj, a)
         raise Unsupported("attribute %s of %r at %d" % (a, obj, e.lineno))
 
@@ -739,6 +769,12 @@ class Exec:
         if isinstance(obj, VRow):
             if not (isinstance(key, VConst) and isinstance(key.py, str)):
                 raise Unsupported("row key at %d" % e.lineno)
+            if obj.view is not None:
+                if key.py not in obj.view:
+                    self.require(BoolVal(False), "KeyError", e)
+                    raise Unsupported("row has no column %s at %d" % (key.py, e.lineno))
+                t_, r_, c_ = obj.view[key.py]
+                return t_.value(c_, r_)
             if not obj.tbl.sch.has(key.py):
                 self.require(BoolVal(False), "KeyError", e)
                 raise Unsupported("row has no column %s at %d" % (key.py, e.lineno))
@@ -835,6 +871,19 @@ class Exec:
             self.assume(Implies(y > 0, And(y * z3.ToReal(q) <= x, x < y * z3.ToReal(q) + y)))
             self.assume(Implies(y < 0, And(y * z3.ToReal(q) >= x, x > y * z3.ToReal(q) + y)))
             return VZ(z3.ToReal(q), "real")
+        if isinstance(op, ast.Mod):
+            # x % y = x - y * (x // y)  (Python: the result has the sign of y)
+            self.require(y != 0, "ZeroDivisionError", e)
+            q = fresh("fdiv", INT)
+            qq = q if k == "int" else z3.ToReal(q)
+            self.assume(Implies(y > 0, And(y * qq <= x, x < y * qq + y)))
+            self.assume(Implies(y < 0, And(y * qq >= x, x > y * qq + y)))
+            return VZ(x - y * qq, k)
+        if isinstance(op, ast.Div):
+            self.require(y != 0, "ZeroDivisionError", e)
+            xr = z3.ToReal(x) if k == "int" else x
+            yr = z3.ToReal(y) if k == "int" else y
+            return VZ(xr / yr, "real")
         raise Unsupported("binop %s at %d" % (type(op).__name__, e.lineno))
 
     def e_Compare(self, e, env):
@@ -878,6 +927,8 @@ class Exec:
         raise Unsupported("comparison at %d" % e.lineno)
 
     def contains(self, coll, x, e):
+        if isinstance(coll, VUnknownColl):
+            return fresh("opaque.in", BOOL)
         if isinstance(coll, VMsg):
             return coll.has(x.py)
         if isinstance(coll, VMap):
@@ -977,6 +1028,9 @@ class Exec:
         """indexable view (n, at(i)) of an iterable; may add enumeration facts"""
         if isinstance(v, (VRowList, VList)):
             return v
+        if isinstance(v, VDict):
+            from .builtins import dict_keys
+            v = dict_keys(self, v)
         if isinstance(v, VSet):
             n = fresh("enum.n", INT)
             en = fresh("enum", ArraySort(INT, sort_of(v.kind)))
@@ -1313,7 +1367,8 @@ def vsubst(v, i, k):
     if isinstance(v, VMap):
         return VMap({f: vsubst(x, i, k) for f, x in v.d.items()})
     if isinstance(v, VRow):
-        return VRow(v.tbl, z3.substitute(v.rid, (i, k)))
+        view = None if v.view is None else {kk: (t, z3.substitute(r, (i, k)), c) for kk, (t, r, c) in v.view.items()}
+        return VRow(v.tbl, z3.substitute(v.rid, (i, k)), view)
     if isinstance(v, VRef):
         return VRef(z3.substitute(v.t, (i, k)), v.cls, v.nullable)
     raise Unsupported("vsubst of %r" % (v,))
